@@ -429,6 +429,19 @@ func (a *Act) modelCall2(ctx *blockCtx, key string, callee *ssa.Function, c *ssa
 			g.usedAssumed["sort.Stable with a strict weak order whose equivalence is equality returns the sorted permutation (sortLex); Less of sortByteSlices is bytes.Compare == -1"] = true
 			return Val{T: "0", S: "Int"}, nil, true
 		}
+	case "sort.Strings":
+		// sort.Strings(x) sorts x in place: as for sort.Stable, the SSA value of the slice is re-bound
+		// to sortStrs(x) from the call on (spec function with the assumed sortedness / permutation axioms)
+		if sf := g.w.specFuns["sortStrs"]; sf != nil && args[0].S == "(Slc Str)" {
+			root := c.Args[0]
+			sorted := Val{T: "(" + sf.SMTName + " " + args[0].T + ")", S: args[0].S, G: root.Type()}
+			nm := g.fresh("sorted", sorted.S)
+			g.fact("(= " + nm + " " + sorted.T + ")")
+			sorted.T = nm
+			a.rebinds = append(a.rebinds, rebind{root: root, val: sorted, blk: a.curBlk, idx: a.curIdx})
+			g.usedAssumed["sort.Strings returns the sorted permutation (sortStrs: ascending in byte-wise lexicographic order strLe, a permutation of its argument); modelled by re-binding the SSA value of the slice"] = true
+			return Val{T: "0", S: "Int"}, nil, true
+		}
 	case "strings.HasPrefix", "strings.HasSuffix":
 		if lit, ok := g.litOf(args[1].T); ok {
 			g.usedAssumed[key+" (built-in model for literal argument)"] = true
